@@ -1,0 +1,61 @@
+//go:build verif
+
+package verifhook
+
+import "sync"
+
+// RWMutex is sync.RWMutex with a scheduling point before every acquisition and ownership
+// notes after every acquisition and before every release, so that the harness knows which
+// task holds which lock: a task that would have to wait for a lock held by a descheduled
+// task is descheduled itself instead of blocking, and a cycle of such waits is reported
+// as a deadlock. Without the verif tag the type is sync.RWMutex itself (lock_off.go).
+type RWMutex struct {
+	mu sync.RWMutex
+}
+
+var lockNames sync.Map // *RWMutex -> name
+
+// NameLock gives a lock the name under which its scheduling points are reported
+// ("lock.<name>" for exclusive, "rlock.<name>" for shared acquisitions).
+func NameLock(m *RWMutex, name string) { lockNames.Store(m, name) }
+
+func lockName(m *RWMutex) string {
+	if n, ok := lockNames.Load(m); ok {
+		return n.(string)
+	}
+	return "anonymous"
+}
+
+func (m *RWMutex) Lock() {
+	if h := installed.Load(); h != nil && h.LockYield != nil {
+		h.LockYield(m, lockName(m), true)
+	}
+	m.mu.Lock()
+	if h := installed.Load(); h != nil && h.LockNote != nil {
+		h.LockNote(m, true, true)
+	}
+}
+
+func (m *RWMutex) Unlock() {
+	if h := installed.Load(); h != nil && h.LockNote != nil {
+		h.LockNote(m, true, false)
+	}
+	m.mu.Unlock()
+}
+
+func (m *RWMutex) RLock() {
+	if h := installed.Load(); h != nil && h.LockYield != nil {
+		h.LockYield(m, lockName(m), false)
+	}
+	m.mu.RLock()
+	if h := installed.Load(); h != nil && h.LockNote != nil {
+		h.LockNote(m, false, true)
+	}
+}
+
+func (m *RWMutex) RUnlock() {
+	if h := installed.Load(); h != nil && h.LockNote != nil {
+		h.LockNote(m, false, false)
+	}
+	m.mu.RUnlock()
+}
